@@ -120,7 +120,7 @@ func verifC20(nInvocations int, verySlow bool) {
 	fc := &verifCountingFC{Coordinator: flush.NewFlushCoordinator()}
 	hfh.flushCoordinator = fc
 	hfh.consolidatedMetrics = make(chan []*gostatsd.MetricMap)
-	hfh.consolidator = gostatsd.NewMetricConsolidator(nondetIntIn(1, 2), false, time.Hour, hfh.consolidatedMetrics)
+	hfh.consolidator = gostatsd.NewMetricConsolidator(nondetIntIn(1, 2), false, time.Second, hfh.consolidatedMetrics) // the default http-transport flush-interval; irrelevant in manual-flush mode unless the ticker runs
 	fc.RegisterFlushable(hfh.consolidator)
 	hfh.metricsSem = make(chan struct{}, 2)
 	hfh.metricsSem <- struct{}{}
